@@ -113,6 +113,17 @@ def run_c02(ctx, C):
     codec_common(ctx, C, [GEN_ADV, GEN_SK], [], mcs=[MC_SK, mc_sk_knob("MacFirst"), mc_sk_knob("PeerKeys")], traces=("Trace_SK",))
 
 
+GEN_HIST = dict(module="Gen_Histories", name="histories", constants=dict(MaxOps=lambda ctx: 4 if ctx.thorough else 3),
+                stride_thorough=12, invariants=("Sound", "Emit"), trace=False)
+GEN_HIST_LONG = dict(module="Gen_Histories", name="histories_long", constants=dict(MaxOps=64), invariants=("Emit",), trace=False,
+                     simulate=lambda ctx: "num=%d" % (3000 if ctx.thorough else 150), workers=16)
+
+
+def run_c17(ctx, C):
+    codec_common(ctx, C, [GEN_HIST, GEN_HIST_LONG], [],
+                 mcs=[MC_SK, mc_sk_knob("ResetBeforeMac"), mc_sk_knob("ResetPerPrfBlock")], traces=())
+
+
 def run_c06(ctx, C):
     codec_common(ctx, C, [GEN_SK], [], mcs=[MC_SK], traces=("Trace_SK",))
 
@@ -122,6 +133,12 @@ def run_c04(ctx, C):
 
 
 PLANS = {
+    "C17": dict(level="model_checking", run=run_c17, assumptions=ASSUME_SK,
+                rule="SKChannel.tla makes the hidden state of the MAC / PRF objects explicit (what was written since the last Reset); AsFresh is "
+                     "model-checked over all operation sequences and fails when Reset-before-MAC or Reset-per-prf-block is removed (sanity runs); "
+                     "ALL behaviours of the machine up to MaxOps operations (quick 3, thorough 4) and simulated behaviours of 64 operations are replayed "
+                     "on real long-lived IKESAKey objects: protect (checked by a fresh peer), unprotect of genuine / flipped / truncated / spliced / "
+                     "retyped / cross-key datagrams, Child SA derivations (compared with RFC 7296 2.17 terms); expected result = the fresh-object verdict"),
     "C02": dict(level="model_checking", run=run_c02, assumptions=ASSUME_SK,
                 rule="SKChannel.tla with a Dolev-Yao adversary model-checked (AcceptOnlySent, MacBeforeDecrypt, NoReflection; knob-off sanity runs); for "
                      "suite x role x base message the sender really protects, then EVERY single-bit flip of the datagram, every proper prefix, extensions, "
